@@ -1,10 +1,214 @@
 (* C24 — Rotation and pose utilities implement the group operations.
-   Only statements, each closed by a lemma of Proof/SpatialProof.v. *)
-From Coq Require Import ZArith List PrimFloat Reals.
+   Only statements, each closed by a lemma of Proof/SpatialProof.v, followed by Print Assumptions.
+   All statements are about Model/Spatial.v instantiated at R (exact real arithmetic).
+   Vocabulary (defined in Proof/SpatialProof.v):
+     qnorm2 q = q0^2+q1^2+q2^2+q3^2, unitq q := qnorm2 q = 1, qopp q = (-q0,-q1,-q2,-q3),
+     unitv a := dot3 a a = 1, unitp p := unitq (snd p),
+     rodrigues a t = I + sin t [a]x + (1 - cos t) [a]x^2,
+     validEuler c := c is one of x y z X Y Z, rotOf c e = axisAngle2Quat (axis named by c) e,
+     factors lower seq es = the rotOf factors of the lower-case (lower = true) resp. upper-case
+     characters of seq, in order of appearance; qprod = ordered product with mulQuat;
+     notTiny3 v := some |v_i| > 1e-8 (the complement of MJX's jp.allclose(v, 0)). *)
+From Coq Require Import ZArith List PrimFloat Reals String Ascii.
 From MJV Require Import Lib.Num Lib.NumR Model.Spatial Proof.SpatialProof.
+Import ListNotations.
 Open Scope R_scope.
 
+(* ---------------- quaternion product: a group on unit quaternions (laws hold for ALL quaternions) *)
 Theorem C24_mulQuat_assoc :
   forall a b c : quat R, mulQuat (mulQuat a b) c = mulQuat a (mulQuat b c).
 Proof. exact mulQuat_assoc. Qed.
 Print Assumptions C24_mulQuat_assoc.
+
+Theorem C24_mulQuat_identity :
+  forall a : quat R, mulQuat quatId a = a /\ mulQuat a quatId = a.
+Proof. exact mulQuat_identity. Qed.
+Print Assumptions C24_mulQuat_identity.
+
+(* negQuat is the conjugate: q * neg q = neg q * q = (|q|^2, 0, 0, 0) for every quaternion,
+   hence the two-sided inverse on unit quaternions; products of unit quaternions are unit *)
+Theorem C24_negQuat_inverse :
+  forall q : quat R,
+    mulQuat q (negQuat q) = (qnorm2 q, 0, 0, 0) /\ mulQuat (negQuat q) q = (qnorm2 q, 0, 0, 0) /\
+    (unitq q -> mulQuat q (negQuat q) = quatId /\ mulQuat (negQuat q) q = quatId /\ unitq (negQuat q)) /\
+    (forall p, qnorm2 (mulQuat q p) = qnorm2 q * qnorm2 p).
+Proof. exact negQuat_inverse_full. Qed.
+Print Assumptions C24_negQuat_inverse.
+
+(* ---------------- quaternion product composes like the matrix product: ALL quaternions,
+   including the identity-quaternion arm of mju_quat2Mat *)
+Theorem C24_quat2Mat_mulQuat :
+  forall a b : quat R, quat2Mat (mulQuat a b) = mulMatMat3 (quat2Mat a) (quat2Mat b).
+Proof. exact quat2Mat_mul. Qed.
+Print Assumptions C24_quat2Mat_mulQuat.
+
+(* ---------------- rotVecQuat (mju_ and mji_ variants, zero-vector and identity arms included)
+   is multiplication by quat2Mat q and preserves the norm, for unit q *)
+Theorem C24_rotVecQuat_matrix :
+  forall (v : vec3 R) (q : quat R), unitq q ->
+    rotVecQuat v q = mulMatVec3 (quat2Mat q) v /\ rotVecQuat_i v q = mulMatVec3 (quat2Mat q) v.
+Proof. exact rotVecQuat_matrix_both. Qed.
+Print Assumptions C24_rotVecQuat_matrix.
+
+Theorem C24_rotVecQuat_norm :
+  forall (v : vec3 R) (q : quat R), unitq q ->
+    norm3 (rotVecQuat v q) = norm3 v /\ norm3 (rotVecQuat_i v q) = norm3 v.
+Proof. exact rotVecQuat_norm_both. Qed.
+Print Assumptions C24_rotVecQuat_norm.
+
+(* non-unit quaternions: the two functions differ by (1 - |q|^2) v, and the inlined variant
+   computes the same function as the exported one *)
+Theorem C24_rotVecQuat_nonunit :
+  forall (v : vec3 R) (q : quat R),
+    rotVecQuat v q = add3 (mulMatVec3 (quat2Mat q) v) (scl3 v (1 - qnorm2 q)) /\
+    rotVecQuat_i v q = rotVecQuat v q.
+Proof. exact rotVecQuat_nonunit_both. Qed.
+Print Assumptions C24_rotVecQuat_nonunit.
+
+(* ---------------- quat2Mat q is a rotation matrix for unit q; |q|^2 times one in general *)
+Theorem C24_quat2Mat_rotation :
+  forall q : quat R, unitq q ->
+    mulMatMat3 (quat2Mat q) (transpose3 (quat2Mat q)) = matId /\
+    mulMatMat3 (transpose3 (quat2Mat q)) (quat2Mat q) = matId /\
+    det3 (quat2Mat q) = 1.
+Proof. exact quat2Mat_rotation. Qed.
+Print Assumptions C24_quat2Mat_rotation.
+
+Theorem C24_quat2Mat_scaled :
+  forall q : quat R,
+    mulMatMat3 (quat2Mat q) (transpose3 (quat2Mat q)) =
+      (qnorm2 q * qnorm2 q, 0, 0, 0, qnorm2 q * qnorm2 q, 0, 0, 0, qnorm2 q * qnorm2 q) /\
+    det3 (quat2Mat q) = qnorm2 q * qnorm2 q * qnorm2 q.
+Proof. exact quat2Mat_scaled. Qed.
+Print Assumptions C24_quat2Mat_scaled.
+
+(* ---------------- conversions round-trip up to the sign of the quaternion: all four arms of
+   mju_mat2Quat (selected by the comparisons as written in C) and the final mju_normalize4 *)
+Theorem C24_mat2Quat_roundtrip :
+  forall q : quat R, unitq q -> mat2Quat (quat2Mat q) = q \/ mat2Quat (quat2Mat q) = qopp q.
+Proof. exact mat2Quat_roundtrip. Qed.
+Print Assumptions C24_mat2Quat_roundtrip.
+
+(* ---------------- poses with unit quaternions form a group under mulPose / negPose, acting by trnVecPose *)
+Theorem C24_mulPose_group :
+  forall p1 p2 p3 : pose R, unitp p1 -> unitp p2 -> unitp p3 ->
+    mulPose (mulPose p1 p2) p3 = mulPose p1 (mulPose p2 p3) /\
+    unitp (mulPose p1 p2) /\ unitp (negPose p1) /\
+    mulPose poseId p1 = p1 /\ mulPose p1 poseId = p1 /\
+    mulPose p1 (negPose p1) = poseId /\ mulPose (negPose p1) p1 = poseId.
+Proof. exact mulPose_group. Qed.
+Print Assumptions C24_mulPose_group.
+
+Theorem C24_trnVecPose_action :
+  forall (p1 p2 : pose R) (v : vec3 R), unitp p1 -> unitp p2 ->
+    trnVecPose (mulPose p1 p2) v = trnVecPose p1 (trnVecPose p2 v) /\
+    trnVecPose poseId v = v /\
+    trnVecPose (negPose p1) (trnVecPose p1 v) = v.
+Proof. exact trnVecPose_action_full. Qed.
+Print Assumptions C24_trnVecPose_action.
+
+(* ---------------- axis-angle (zero-angle arm included) *)
+Theorem C24_axisAngle2Quat_unit :
+  forall (ax : vec3 R) (angle : R), unitv ax -> unitq (axisAngle2Quat ax angle).
+Proof. exact axisAngle2Quat_unit. Qed.
+Print Assumptions C24_axisAngle2Quat_unit.
+
+Theorem C24_axisAngle2Quat_rodrigues :
+  forall (ax : vec3 R) (angle : R), unitv ax -> quat2Mat (axisAngle2Quat ax angle) = rodrigues ax angle.
+Proof. exact axisAngle2Quat_rodrigues. Qed.
+Print Assumptions C24_axisAngle2Quat_rodrigues.
+
+(* ---------------- Euler sequences.  The loop of mju_euler2Quat, for a sequence of ANY length over
+   xyzXYZ (proved by induction over the sequence) and any start value tmp: the upper-case
+   (extrinsic) factors in reverse order, then tmp, then the lower-case (intrinsic) factors in order. *)
+Theorem C24_eulerLoop_product :
+  forall (seq : list ascii) (es : list R) (tmp : quat R), Forall validEuler seq ->
+    eulerLoop tmp seq es =
+      Some (mulQuat (qprod (rev (factors false seq es))) (mulQuat tmp (qprod (factors true seq es)))).
+Proof. exact (fun seq es tmp V => eulerLoop_product seq es tmp V). Qed.
+Print Assumptions C24_eulerLoop_product.
+
+(* mju_euler2Quat itself (3 characters) *)
+Theorem C24_euler2Quat_product :
+  forall (euler : vec3 R) (seq : string),
+    String.length seq = 3%nat -> Forall validEuler (list_ascii_of_string seq) ->
+    euler2Quat euler seq =
+      Some (mulQuat (qprod (rev (factors false (list_ascii_of_string seq) (v2l euler))))
+                    (qprod (factors true (list_ascii_of_string seq) (v2l euler)))).
+Proof. exact euler2Quat_product. Qed.
+Print Assumptions C24_euler2Quat_product.
+
+(* mjERROR exactly for strings that are not three characters of xyzXYZ *)
+Theorem C24_euler2Quat_error :
+  forall (euler : vec3 R) (seq : string),
+    euler2Quat euler seq = None <->
+    (String.length seq <> 3%nat \/ ~ Forall validEuler (list_ascii_of_string seq)).
+Proof. exact euler2Quat_error. Qed.
+Print Assumptions C24_euler2Quat_error.
+
+(* ---------------- mju_subQuat inverts mju_quatIntegrate.  Partial: proved for |h| |v| <= pi (pi included)
+   under the side condition that no mjMINVAL guard of mju_normalize3 fires on a non-zero value
+   (h |v| = 0, or |v| >= mjMINVAL and |sin(h |v| / 2)| >= mjMINVAL).  Inside the excluded band the
+   C code replaces the axis by (1,0,0) and the statement is false of the model (error <= ~2e-15).
+   The atan2/sin/cos identity needed is proved (Ratan2_half), not assumed. *)
+Theorem C24_sub_integrate_partial :
+  forall (q : quat R) (v : vec3 R) (h : R),
+    unitq q -> Rabs (h * norm3 v) <= PI ->
+    (h * norm3 v = 0 \/ (mjMINVAL <= norm3 v /\ mjMINVAL <= Rabs (sin (h * norm3 v * / 2)))) ->
+    subQuat (quatIntegrate q v h) q = scl3 v h.
+Proof. exact sub_integrate. Qed.
+Print Assumptions C24_sub_integrate_partial.
+
+(* ---------------- MJX math.rotate (a different formula) is the same function on unit quaternions *)
+Theorem C24_mjx_rotate :
+  forall (v : vec3 R) (q : quat R), unitq q -> mjx_rotate v q = rotVecQuat v q.
+Proof. exact mjx_rotate_eq. Qed.
+Print Assumptions C24_mjx_rotate.
+
+(* both products with a pure quaternion: mju_mulQuatAxis is q * (0,a); mju_derivQuat is 1/2 (0,w) * q *)
+Theorem C24_mulQuatAxis_derivQuat :
+  forall (q : quat R) (a : vec3 R),
+    mulQuatAxis q a = mulQuat q (let '(a0, a1, a2) := a in (0, a0, a1, a2)) /\
+    derivQuat q a = (let '(p0, p1, p2, p3) := mulQuat (let '(w0, w1, w2) := a in (0, w0, w1, w2)) q in
+                     (/ 2 * p0, / 2 * p1, / 2 * p2, / 2 * p3)).
+Proof. exact (fun q a => conj (mulQuatAxis_eq q a) (derivQuat_eq q a)). Qed.
+Print Assumptions C24_mulQuatAxis_derivQuat.
+
+(* MJX quat_integrate (normalises AFTER the product, jp.allclose-based zero test at 1e-8) computes the same
+   function as mju_quatIntegrate for unit q when the velocity is exactly zero or has a component above 1e-8 *)
+Theorem C24_mjx_quat_integrate :
+  forall (q : quat R) (v : vec3 R) (dt : R),
+    unitq q -> (v = (0, 0, 0) \/ notTiny3 v) -> mjx_quat_integrate q v dt = quatIntegrate q v dt.
+Proof. exact mjx_quat_integrate_eq. Qed.
+Print Assumptions C24_mjx_quat_integrate.
+
+(* MJX quat_sub = mju_subQuat whenever the vector part of neg(v)*u is exactly zero or has a component above 1e-8
+   (in between, MJX returns 0 where C returns ~2*vector part: a difference below 2e-8) *)
+Theorem C24_mjx_quat_sub :
+  forall u v : quat R,
+    (let '(p0, p1, p2, p3) := mulQuat (negQuat v) u in (p1, p2, p3) = (0, 0, 0) \/ notTiny3 (p1, p2, p3)) ->
+    mjx_quat_sub u v = subQuat u v.
+Proof. exact mjx_quat_sub_eq. Qed.
+Print Assumptions C24_mjx_quat_sub.
+
+(* ---------------- non-vacuity: the hypotheses are satisfiable by non-trivial values *)
+Example C24_unit_example :
+  unitq (/ 2, / 2, - / 2, / 2) /\ ~ isNullQuat (T:=R) (/ 2, / 2, - / 2, / 2) = true.
+Proof. exact unitq_example. Qed.
+
+(* rotation by exactly pi about z: every hypothesis of C24_sub_integrate_partial holds in its
+   non-degenerate alternative and the round trip returns (0, 0, pi) *)
+Example C24_sub_integrate_example :
+  let q : quat R := (0, 1, 0, 0) in let v : vec3 R := (0, 0, PI) in let h := 1 in
+  unitq q /\ Rabs (h * norm3 v) <= PI /\ h * norm3 v <> 0 /\
+  mjMINVAL <= norm3 v /\ mjMINVAL <= Rabs (sin (h * norm3 v * / 2)) /\
+  subQuat (quatIntegrate q v h) q = (0, 0, PI).
+Proof. exact sub_integrate_example. Qed.
+
+(* intrinsic "xyz" is Rx Ry Rz, extrinsic "XYZ" is Rz Ry Rx, mixed "xYz" is Ry (Rx Rz) *)
+Example C24_euler_xyz :
+  forall e0 e1 e2 : R,
+    euler2Quat (e0, e1, e2) "xyz" = Some (mulQuat (rotOf "x" e0) (mulQuat (rotOf "y" e1) (rotOf "z" e2))) /\
+    euler2Quat (e0, e1, e2) "XYZ" = Some (mulQuat (rotOf "Z" e2) (mulQuat (rotOf "Y" e1) (rotOf "X" e0))) /\
+    euler2Quat (e0, e1, e2) "xYz" = Some (mulQuat (rotOf "Y" e1) (mulQuat (rotOf "x" e0) (rotOf "z" e2))).
+Proof. exact euler_examples. Qed.
